@@ -46,6 +46,8 @@ fn c02_csvdump_file_names_and_slices() {
         d.write();
         let run = |s: u64, e: Option<u64>| -> (tempfile::TempDir, std::result::Result<(), String>) {
             let out = tempfile::tempdir().unwrap();
+            // leftovers of an earlier, aborted run in the same folder must not leak into the result
+            for f in ["blocks", "transactions", "tx_in", "tx_out"] { std::fs::write(out.path().join(format!("{}.csv.tmp", f)), "stale;row;of;an;aborted;run\n".repeat(400)).unwrap(); }
             let m = CsvDump::build_subcommand().get_matches_from(vec!["csvdump", out.path().to_str().unwrap()]);
             let cb = CsvDump::new(&m).unwrap();
             let r = drive_with(d.path(), "bitcoin", s, e, false, Box::new(cb));
